@@ -15,7 +15,7 @@ import re
 
 from common import Rule, V, finish
 from mirlib import ENTRY_POINTS, short_path
-from srclib import walk_block, walk, lit_str, expr_text
+from srclib import stmt_exprs, walk_block, walk, lit_str, expr_text
 from svlib import SVEval, render, leaves
 from c05 import constructor_of
 
@@ -301,6 +301,43 @@ def check(ctx):
             r4.ok("%s does no substring search" % f.name)
     r4.require_floor(4, "parsing functions")
     rules.append(r4)
+
+    # ---------------------------------------------------------------- D5 (accumulation over several #[validate(..)] attributes)
+    r5 = Rule("C11-D5-attribute-accumulation", "D5",
+              "inside the loop over a field's attributes, the accumulated ValidatorAttributes only gains constraints: a field is assigned `true` / `Some(..)` "
+              "(under the guard that found the constraint), never an unguarded Option result that can reset it to None; the loop does not stop early",
+              "with #[validate(length(..))] followed by #[validate(email)], an unguarded `attrs.length = parse(..)` drops the length constraint")
+    pva = S.fn("ValidatorParser", "parse_validator_attributes")
+    if pva is None:
+        r5.bad(V(r5.id, "<anchor>", "missing:parse_validator_attributes", "anchor not found"))
+    else:
+        loops = [e for e in walk_block(pva.body) if e.get("k") == "for" and re.search(r"\battrs\b", expr_text(e["iter"]))]
+        if not loops:
+            r5.bad(V(r5.id, "ValidatorParser::parse_validator_attributes", "no-attribute-loop", "no loop over the attributes found"))
+        for lp in loops:
+            from srclib import children
+            stack = list(x for st in lp["body"] for x in stmt_exprs(st))
+            while stack:
+                x = stack.pop()
+                if not isinstance(x, dict):
+                    continue
+                if x.get("k") in ("break", "return"):
+                    r5.bad(V(r5.id, "ValidatorParser::parse_validator_attributes", "attribute-loop-stops-early:%s" % x["k"], "the attribute loop can stop before the last #[validate(..)] attribute", pva.file, x.get("ln")))
+                if x.get("k") == "assign" and x["l"].get("k") == "field":
+                    rhs = x["r"]
+                    rt = expr_text(rhs)
+                    fld = x["l"]["member"]
+                    okv = (rhs.get("k") == "lit" and rhs["lit"]["t"] == "bool" and rhs["lit"]["v"] is True) or (rhs.get("k") == "call" and expr_text(rhs["func"]) == "Some")
+                    if okv:
+                        r5.ok("%s = %s" % (fld, rt[:40]))
+                    else:
+                        r5.bad(V(r5.id, "ValidatorParser::parse_validator_attributes", "accumulator-reset:%s" % fld,
+                                 "`%s = %s` inside the attribute loop can overwrite a constraint found in an earlier attribute" % (expr_text(x["l"]), rt[:60]), pva.file, x.get("ln")))
+                if x.get("k") == "closure":
+                    continue
+                stack.extend(children(x))
+    r5.require_floor(3, "accumulator assignments")
+    rules.append(r5)
 
     return finish(
         PROP, ctx, rules,
